@@ -122,7 +122,7 @@ class C13(Check):
                   'route-kind x method x consumption x file-wrapper grid is swept once per run for a sampled wrapper stack.')
     level_note = 'Trusted: wsgiref.validate as the reading of PEP 3333; the monitor in sim/core/gateway.py.'
     required_probes = ('first-requests-concurrent', 'file-released-after-abort', 'file-released-without-iteration', 'head-no-body', 'reroute-same-environ',
-                       'wrapper-unique-once', 'custom-file-wrapper-used', 'debug-500', 'gzip-applied')
+                       'custom-file-wrapper-used', 'debug-500', 'gzip-applied')
 
     def generate(self, seed, tier):
         S = Streams(seed)
